@@ -171,8 +171,34 @@ def run(prog, ctx):
         nonlocal n_k
         f = prog.fns.get(fid)
         if f is None:
-            res.violate("C16.K", "C16.K|missing|" + label, "%s no longer exists" % fid)
-            return
+            # the private helper was renamed, merged or inlined: look for any function of the module with the same arity
+            # that computes the reference step; none found = this step is not decided (no evidence that it is wrong)
+            mod = fid.rsplit("::", 1)[0]
+            for g in sorted(prog.fns.values(), key=lambda x: x.id):
+                if g.promoted or not g.id.startswith(mod + "::") or g.argc != n_in or "{closure" in g.id:
+                    continue
+                ge = ret_expr(prog, g)
+                try:
+                    names = [g.local_name(i + 1) or "arg%d" % (i + 1) for i in range(n_in)]
+                    okg = True
+                    for _ in range(8):
+                        vals = [rnd.getrandbits(64) for _ in range(n_in)]
+                        envg = dict(zip(names, vals))
+                        envg["@prog"] = prog
+                        if formula.evaluate(ge, envg) != ref(*vals):
+                            okg = False
+                            break
+                    if okg:
+                        f = g
+                        leaves_map = names
+                        break
+                except (formula.Uneval, TypeError):
+                    continue
+            if f is None:
+                res.obligations += 1
+                res.undecided += 1
+                res.extra.setdefault("uneval", []).append("%s: no function of %s computes this step on its own (renamed / inlined)" % (label, mod))
+                return
         e = ret_expr(prog, f)
         n_k += 1
         res.obligations += 1
@@ -182,6 +208,7 @@ def run(prog, ctx):
                 vals = [rnd.getrandbits(64) for _ in range(n_in)]
                 env = dict(zip(leaves_map, vals))
                 env["@cache"] = {}
+                env["@prog"] = prog
                 got = formula.evaluate(e, env)
                 want = ref(*vals)
                 if got != want:
